@@ -1287,3 +1287,67 @@ Example sync_converges_rollold_nonvacuous :
   /\ settledb 0 (sync_n ex_cfg 0 2 [mkSin 100 50; mkSin 200 51] s) = false
   /\ settledb 0 (sync_n ex_cfg 0 2 [mkSin 100 50; mkSin 200 51; mkSin 300 52] s) = true.
 Proof. split; [constructor; reflexivity|]. vm_compute. repeat split; reflexivity. Qed.
+
+(** * Unsuspension: what comes back lies within the entitlement of that moment *)
+
+Lemma aget_aremove_some {V} k k' (v : V) l : aget k' (aremove k l) = Some v -> k' <> k /\ aget k' l = Some v.
+Proof.
+  intro H. destruct (N.eq_dec k' k) as [->|Hn]; [rewrite aget_aremove_eq in H; discriminate|].
+  split; [exact Hn|]. rewrite aget_aremove_neq in H; assumption.
+Qed.
+
+(** Every issued certificate after [cl_unsuspend] is either one that was issued before, untouched, or the
+    re-issue of a suspended one: the suspended certificate's resources intersected with the issuing certificate,
+    narrowed by its limit - and within the child's entitlement. *)
+Theorem unsuspend_within_entitlement ent now exp keys : forall dc dc' rm,
+  cl_unsuspend dc ent keys now exp = Some (dc', rm) ->
+  forall k c', aget k (d_issued dc') = Some c' ->
+    aget k (d_issued dc) = Some c'
+    \/ (exists s sg, aget k (d_susp dc) = Some s /\ cur_res dc = Some sg
+                     /\ issue_cert sg (i_res s) (i_limit s) = Some (i_res c')
+                     /\ subset (i_res s) ent = true /\ subset (i_res c') ent = true).
+Proof.
+  induction keys as [|k0 keys IH]; simpl; intros dc dc' rm H k c' E.
+  - inv H. left. exact E.
+  - destruct (aget k0 (d_susp dc)) as [s|] eqn:Es; [|eapply IH; eauto].
+    destruct ((now + 86400 <? i_exp s)%Z && subset (i_res s) ent) eqn:Eok.
+    + apply andb_true_iff in Eok. destruct Eok as [_ Hsub].
+      destruct (cl_certify dc (i_res s) k0 (i_limit s) exp) as [dc1|] eqn:Ec; [|discriminate].
+      unfold cl_certify in Ec. destruct (cur_res dc) as [sg|] eqn:Ecur; [|discriminate].
+      destruct (issue_cert sg (i_res s) (i_limit s)) as [r|] eqn:Ei; [|discriminate]. inv Ec.
+      destruct (IH _ _ _ H k c' E) as [Hold|[s' [sg' [Hs' [Hc' [Hi' [Hsub' Hin']]]]]]].
+      * cbn [d_issued dc_with_certs dc_with] in Hold. destruct (N.eq_dec k k0) as [->|Hn].
+        -- rewrite aget_ainsert_eq in Hold. inv Hold. right. exists s, sg. cbn [i_res].
+           repeat split; auto. apply issued_within in Ei. destruct Ei as [_ Hr]. eapply subset_trans; eauto.
+        -- rewrite aget_ainsert_neq in Hold by exact Hn. left. exact Hold.
+      * cbn [d_susp dc_with_certs dc_with] in Hs'. apply aget_aremove_some in Hs'. destruct Hs' as [_ Hs']. right. exists s', sg'.
+        change (cur_res dc = Some sg') in Hc'. repeat split; auto; congruence.
+    + destruct (cl_unsuspend dc ent keys now exp) as [[dc1 rm1]|] eqn:Eu; [|discriminate].
+      inv H. cbn [d_issued dc_with_certs dc_with] in E. apply aget_aremove_some in E. destruct E as [_ E]. eapply IH; eauto.
+Qed.
+
+(** ... and a suspended certificate is dropped only if it exceeds the entitlement or is about to expire. *)
+Theorem unsuspend_removes_only_unfit ent now exp keys : forall dc dc' rm,
+  cl_unsuspend dc ent keys now exp = Some (dc', rm) ->
+  forall k, In k rm -> exists s, aget k (d_susp dc) = Some s /\ ((now + 86400 <? i_exp s)%Z && subset (i_res s) ent) = false.
+Proof.
+  induction keys as [|k0 keys IH]; simpl; intros dc dc' rm H k Hin.
+  - inv H. destruct Hin.
+  - destruct (aget k0 (d_susp dc)) as [s|] eqn:Es; [|eapply IH; eauto].
+    destruct ((now + 86400 <? i_exp s)%Z && subset (i_res s) ent) eqn:Eok.
+    + destruct (cl_certify dc (i_res s) k0 (i_limit s) exp) as [dc1|] eqn:Ec; [|discriminate].
+      destruct (IH _ _ _ H k Hin) as [s' [Hs' Hbad]].
+      unfold cl_certify in Ec. destruct (cur_res dc); [|discriminate]. destruct (issue_cert _ _ _); [|discriminate]. inv Ec.
+      cbn [d_susp dc_with_certs dc_with] in Hs'. apply aget_aremove_some in Hs'. destruct Hs' as [_ Hs']. exists s'. auto.
+    + destruct (cl_unsuspend dc ent keys now exp) as [[dc1 rm1]|] eqn:Eu; [|discriminate]. inv H.
+      destruct Hin as [<-|Hin]; [exists s; auto|eapply IH; eauto].
+Qed.
+
+Example unsuspend_within_entitlement_nonvacuous :
+  (* suspended with atoms 0,1; the entitlement shrank to atom 0 meanwhile: dropped, not published again *)
+  let dc := mkDC 1 0 (KActive (mkCK 1 (mkCert 1 0xF000F 0) false)) [] [] [(7, mkIC 0x30003 no_limit 9999999)] [] in
+  cl_unsuspend dc 0x10001 [7] 0 5 = Some (mkDC 1 0 (KActive (mkCK 1 (mkCert 1 0xF000F 0) false)) [] [] [] [], [7])
+  (* the entitlement grew to atoms 0,1,2: the certificate comes back as it was *)
+  /\ cl_unsuspend dc 0x70007 [7] 0 5
+     = Some (mkDC 1 0 (KActive (mkCK 1 (mkCert 1 0xF000F 0) false)) [] [(7, mkIC 0x30003 no_limit 5)] [] [], []).
+Proof. vm_compute. split; reflexivity. Qed.
